@@ -1,7 +1,7 @@
 (* C19 - decoding errors name the offending field, in decimal, for every number. *)
 From Coq Require Import List ZArith Bool.
 From Pico Require Import Base.Res Base.Mach Wire.Wire Small.FieldNumStr Small.FieldNumStrProofs
-  Schema.Types Schema.Scalar Schema.Gen Schema.Interp Dec.Dec Dec.ReaderProofs Schema.ErrName.
+  Schema.Types Schema.Scalar Schema.Gen Schema.Interp Dec.Dec Dec.ReaderProofs Schema.ErrName Schema.ErrSchema gen.Schemas.
 Import ListNotations.
 Open Scope Z_scope.
 
@@ -35,6 +35,19 @@ Theorem C19_unmarshal_error_names_field : forall progs idx data m0 f c m,
   pico_unmarshal progs idx data m0 = (Some (f, c), m) -> field_class c -> allowed progs f.
 Proof. exact unmarshal_error_names_field. Qed.
 
+(* the same in terms of the SCHEMA, for the Decode methods the generator emits (gen_all s): the number is a field number
+   declared in s, or 1 / 2 (sub-fields of map entries, Timestamp, Duration), or - only if a message of s captures
+   unrecognized fields - an unknown field's own number *)
+Theorem C19_unmarshal_error_names_schema_field : forall s progs idx data m0 f c m, gen_all s = GOk progs ->
+  pico_unmarshal progs idx data m0 = (Some (f, c), m) -> field_class c ->
+  In f (schema_numbers s) \/ f = 1 \/ f = 2 \/ (schema_captures s = true /\ 0 <= f).
+Proof. exact unmarshal_error_names_schema_field. Qed.
+(* non-vacuous on the checked-in schemas (regenerated from /repo on every run): every one declares field numbers, and the
+   capturing case exists *)
+Example C19_checked_in_schemas : forallb (fun s => negb (Nat.eqb (length (schema_numbers s)) 0)) checked_in_schemas = true /\
+  existsb schema_captures checked_in_schemas = true.
+Proof. vm_compute. split; reflexivity. Qed.
+
 (* PARTIAL: that the number is the one of the FIRST offending record of the input (not merely a declared one) is stated at
    reader level above; for whole messages it is tied to the code by comparing (field, class) of model and implementation on
    the malformed stream, and to protobuf-go's tokenizer by the reader grids. *)
@@ -56,3 +69,4 @@ Print Assumptions C19_err_wire.
 Print Assumptions C19_reader_names_itself.
 Print Assumptions C19_repeated_reader_names_itself.
 Print Assumptions C19_unmarshal_error_names_field.
+Print Assumptions C19_unmarshal_error_names_schema_field.
